@@ -293,7 +293,9 @@ class _ReconnectionHandler(object):
                     self.scheduler.schedule(next_delay, self.run)
         else:
             if not self._cancelled:
-                self.on_reconnection(conn)
+                if self.on_reconnection(conn):
+                    # the handler keeps the connection (the control connection installs it): not ours to close
+                    conn = None
                 self.callback(*(self.callback_args), **(self.callback_kwargs))
         finally:
             if conn:
